@@ -9,6 +9,9 @@ import time
 from .. import tlaparse, tlc
 from . import blob as bd
 
+JVM_PROPS = ()
+JVM_ENV = {'JAVA_TOOL_OPTIONS': '-XX:ParallelGCThreads=2 -XX:CICompilerCount=2'}
+
 # ---- macro operations -> script entries ---------------------------------------------------------------------
 
 
@@ -112,10 +115,10 @@ def evaluate(scripts, c, workdir, timeout=600, workers=1):
     cfg = os.path.join(workdir, 'scripts.cfg')
     tlc.write_cfg(cfg, constants=k, init='SInit', next_='SNext')
     dot = os.path.join(workdir, 'g.dot')
-    cmd = tlc._java_cmd() + ['-workers', str(workers), '-metadir', os.path.join(workdir, 'meta'), '-noGenerateSpecTE',
+    cmd = tlc._java_cmd(JVM_PROPS) + ['-workers', str(workers), '-metadir', os.path.join(workdir, 'meta'), '-noGenerateSpecTE',
                              '-dump', 'dot,actionlabels', dot, '-config', cfg, os.path.join(workdir, 'ZBlobScript.tla')]
     e = dict(os.environ)
-    e.pop('JAVA_TOOL_OPTIONS', None)
+    e.update(JVM_ENV)
     t0 = time.time()
     p = subprocess.run(cmd, cwd=workdir, env=e, stdout=subprocess.PIPE, stderr=subprocess.STDOUT, text=True, timeout=timeout)
     wall = time.time() - t0
@@ -150,5 +153,8 @@ def evaluate(scripts, c, workdir, timeout=600, workers=1):
             if act['a'] != 'Skip':
                 steps.append({'action': act['a'], 'args': [act[x] for x in _ARGS.get(act['a'], ())], 'state': s})
             cur = succ.get(cur)
+        if int(s['pc']) != len(scripts[int(s['sid']) - 1]) + 1:
+            raise tlc.TLCError('script %d stopped at entry %d of %d (a call neither enabled nor skipped): %r' % (
+                int(s['sid']), int(s['pc']), len(scripts[int(s['sid']) - 1]), scripts[int(s['sid']) - 1][int(s['pc']) - 1]))
         behs[int(s['sid'])] = steps
     return [behs[i + 1] for i in range(len(scripts))], summary
